@@ -200,10 +200,36 @@ static void run_pyvec(uint64_t idx, pv_rng* rng) {
 static void init2(void) { init(); g_out = malloc(POLYSEED_STR_SIZE); g_img = malloc(32); load_extra_vectors(); }
 static void fini(void) { pv_set_flag("exhaustive.single_bit_seeds_and_pairs", true); }
 
+/* ---------------------------------------------------------------- the layout while other threads encode their own seeds */
+static bool conc_iter(pv_rng* r, int iter, void* user, char* err, size_t errsz) {
+    (void)iter; (void)user;
+    pv_mseed m; pv_gen_mseed(r, 7, true, &m);
+    polyseed_data* s = pv_seed_from_model(&m);
+    if (!s) { snprintf(err, errsz, "cannot load %s", pv_mseed_str(&m)); return false; }
+    char* out = malloc(POLYSEED_STR_SIZE); bool ok = true;
+    for (int k = 0; k < 3 && ok; ++k) {
+        pv_mlang* L; do { L = &pv_langs[pv_randn(r, (uint32_t)pv_nlangs)]; } while (!L->lib);
+        unsigned coin = pv_gen_coin(r);
+        size_t n = pv_api_encode(s, L->lib, coin, out);
+        char want[2048]; size_t wn = pv_m_encode(&m, L, coin, want, sizeof want);
+        if (n != wn || strcmp(out, want)) { ok = false; snprintf(err, errsz, "%s coin %u seed %s: '%.90s' vs specification '%.90s'", L->name_en, coin, pv_mseed_str(&m), out, want); }
+    }
+    free(out); pv_api_free(s);
+    return ok;
+}
+static uint64_t n_conc(void) { return pv_scaled(3, 100); }
+static void run_conc(uint64_t idx, pv_rng* rng) {
+    (void)idx; pv_api_enable_features(7);
+    enum { NT = 8, IT = 2500 }; static pv_conc_result res[NT];
+    uint64_t seed = pv_rand64(rng);
+    pv_concurrent(NT, IT, seed, 35, conc_iter, NULL, res);
+    if (pv_concurrent_verdict(res, NT, IT, "C03/differs-under-concurrency", "concurrent.phrases_equal_specification")) PV_DISTINCT("nontrivial", seed);
+}
+
 int main(int argc, char** argv) {
     static const pv_section secs[] = {
         { "bits", n_bits, run_bits }, { "reserved", n_reserved, run_reserved },
-        { "random", n_random, run_random }, { "purity", n_purity, run_purity }, { "lengths", n_lengths, run_lengths }, { "pyvectors", n_pyvec, run_pyvec },
+        { "random", n_random, run_random }, { "purity", n_purity, run_purity }, { "lengths", n_lengths, run_lengths }, { "pyvectors", n_pyvec, run_pyvec }, { "concurrent", n_conc, run_conc },
     };
-    return pv_main(argc, argv, "C03", secs, 6, init2, fini);
+    return pv_main(argc, argv, "C03", secs, (int)(sizeof secs / sizeof *secs), init2, fini);
 }
